@@ -167,10 +167,10 @@ pub fn run_c06(ctx: &mut Ctx) {
         let r = check_round_trip(&w, &mut rec, true, false);
         ctx.known_witness("KF-C06-2", r.is_err(), "after every market token has been withdrawn the fees left in the pool belong to nobody; the next deposit (1e7 long) is minted against pool value + deposit and can be withdrawn at once for ~47x its value (prevented on-chain only if min_tokens_for_first_deposit is configured)");
     }
-    let n = ctx.cases(12_000, 600_000);
+    let n = ctx.cases(60_000, 3_000_000);
     ctx.search("round_trip", n, round_trip_case, move |c, rec| check_round_trip(c, rec, kf, kf2));
-    ctx.floor("round_trip:round_trip_done", 2_000);
-    ctx.floor("round_trip:first_deposit", 300);
+    ctx.floor("round_trip:round_trip_done", 10_000);
+    ctx.floor("round_trip:first_deposit", 1_500);
 }
 
 // ------------------------------------------------------------------------------------------ C10
